@@ -223,9 +223,13 @@ pub fn core_builder_reuse(p: Proto) -> Vec<Obs> {
     // other call orders: footer / assertion before the payload; payload replaced on the configured builder
     let msg2 = "{\"data\":\"second payload\"}";
     let ord = adapter::core_issue_orders(p, &key.sk, &seed, msg, msg2, Some(f), a_opt);
-    for (i, (t, m)) in ord.iter().zip([msg, msg2]).enumerate() {
+    for (i, (t, m)) in ord.iter().zip([msg, msg2, msg2]).enumerate() {
         let case = json!({"kind": "core-call-order", "proto": p, "issue_no": i + 1});
-        let what = if i == 0 { "core layer, set_footer / set_implicit_assertion BEFORE set_payload" } else { "core layer, set_payload again on the configured builder" };
+        let what = match i {
+            0 => "core layer, set_footer / set_implicit_assertion BEFORE set_payload",
+            1 => "core layer, set_payload again on the configured builder",
+            _ => "core layer, token issued from a clone() of the configured builder",
+        };
         let Out::Ok(token) = t else {
             out.push(Obs { dim: Dim::RoundTrip, what: what.into(), expect_ok: true, got_ok: false, got: t.short(), case });
             continue;
